@@ -49,6 +49,19 @@ pub enum Cmd {
 	/// relative, in frames
 	SeekBy(i64),
 	SetLoop(Option<(usize, Option<usize>)>),
+	/// pause / resume with instant tweens: the chunk after a pause is silent and consumes nothing,
+	/// the chunk after a resume fades in (not compared) and consumes as usual
+	Pause,
+	Resume,
+}
+
+/// 0 = loop region, 1 = seek, 2 = pause / resume: at most one of each per gap
+fn cmd_class(c: &Cmd) -> u8 {
+	match c {
+		Cmd::SetLoop(_) => 0,
+		Cmd::SeekTo(_) | Cmd::SeekBy(_) => 1,
+		Cmd::Pause | Cmd::Resume => 2,
+	}
 }
 
 /// Source frames code their own index with a pseudo-random, exactly representable
@@ -267,13 +280,31 @@ fn gen_case(seed: u64, tier: Tier, small: Option<u64>) -> Case {
 				cmds.push((at, second));
 			}
 		}
+		// a paused stretch (instant pause, instant resume some gaps later) with seeks inside it:
+		// every seek counts, also while nothing is being heard
+		if chunks.len() > 3 && rng.chance(0.4) {
+			let a = rng.usize_below(chunks.len() - 2);
+			let b = (a + 1 + rng.usize_below(6)).min(chunks.len() - 1);
+			cmds.push((a, Cmd::Pause));
+			cmds.push((b, Cmd::Resume));
+			for _ in 0..rng.below(3) {
+				let at = rng.urange(a, b + 1);
+				cmds.push((
+					at,
+					if rng.chance(0.5) {
+						Cmd::SeekTo(rng.usize_below(n + 3))
+					} else {
+						Cmd::SeekBy(rng.range(-(n as i64) - 2, n as i64 + 2))
+					},
+				));
+			}
+		}
 		cmds.sort_by_key(|c| c.0);
 		// per gap at most one loop-region change and at most one seek (commands of one kind
 		// share a mailbox; two seeks of different kinds do not commute)
 		let mut kept: Vec<(usize, Cmd)> = Vec::new();
 		for (at, cmd) in cmds {
-			let is_loop = matches!(cmd, Cmd::SetLoop(_));
-			if kept.iter().any(|(a, c)| *a == at && matches!(c, Cmd::SetLoop(_)) == is_loop) {
+			if kept.iter().any(|(a, c)| *a == at && cmd_class(c) == cmd_class(&cmd)) {
 				continue;
 			}
 			kept.push((at, cmd));
@@ -396,14 +427,18 @@ pub fn run_case(case: &Case) -> CaseResult {
 	// compared by decoded frame index +-1, resampled ones by the safety oracles only
 	let mut post_seek = false;
 	let mut stopped_chunks = 0usize;
+	let mut source_frames_since_stop = 0.0f64;
+	// pause / resume with instant tweens: a paused sound renders silence and consumes nothing;
+	// the first chunk after the resume fades in (its samples are not compared, its frames count)
+	let mut ref_paused = false;
+	let mut fade_in_chunk = false;
 
 	for (ci, chunk) in case.chunks.iter().enumerate() {
 		// gameplay side: commands issued before this callback
 		let mut pending: Vec<Cmd> = Vec::new();
 		while let Some((at, cmd)) = cmd_iter.peek() {
 			if *at <= ci {
-				let is_loop = matches!(cmd, Cmd::SetLoop(_));
-				if !pending.iter().any(|c| matches!(c, Cmd::SetLoop(_)) == is_loop) {
+				if !pending.iter().any(|c| cmd_class(c) == cmd_class(cmd)) {
 					pending.push(*cmd);
 				}
 				cmd_iter.next();
@@ -418,6 +453,7 @@ pub fn run_case(case: &Case) -> CaseResult {
 					tr.looped = RefTransport::norm_loop(l, n);
 					false
 				}
+				Cmd::Pause | Cmd::Resume => false,
 				Cmd::SeekTo(_) | Cmd::SeekBy(_) => {
 					if ref_stopped {
 						// Stopped is final
@@ -434,15 +470,17 @@ pub fn run_case(case: &Case) -> CaseResult {
 				}
 			}
 		};
-		if pending.len() == 2 {
+		let transport_cmds: Vec<usize> = (0..pending.len()).filter(|i| cmd_class(&pending[*i]) < 2).collect();
+		if transport_cmds.len() == 2 {
 			// the pair is only kept when the two orders of application agree
+			let (i, j) = (transport_cmds[0], transport_cmds[1]);
 			let (mut a, mut b) = (tr.clone(), tr.clone());
-			apply(&mut a, pending[0], ref_stopped);
-			apply(&mut a, pending[1], ref_stopped);
-			apply(&mut b, pending[1], ref_stopped);
-			apply(&mut b, pending[0], ref_stopped);
+			apply(&mut a, pending[i], ref_stopped);
+			apply(&mut a, pending[j], ref_stopped);
+			apply(&mut b, pending[j], ref_stopped);
+			apply(&mut b, pending[i], ref_stopped);
 			if (a.pos, a.playing, a.looped) != (b.pos, b.playing, b.looped) {
-				pending.truncate(1);
+				pending.remove(j);
 			} else {
 				res.hit("loop_and_seek_in_one_period");
 			}
@@ -451,6 +489,14 @@ pub fn run_case(case: &Case) -> CaseResult {
 			match *cmd {
 				Cmd::SeekTo(i) => handle.seek_to(i as f64 / case.sound_rate as f64 + 0.25 / case.sound_rate as f64),
 				Cmd::SeekBy(d) => handle.seek_by((d as f64 + 0.25) / case.sound_rate as f64),
+				Cmd::Pause => handle.pause(kira::Tween {
+					duration: std::time::Duration::ZERO,
+					..Default::default()
+				}),
+				Cmd::Resume => handle.resume(kira::Tween {
+					duration: std::time::Duration::ZERO,
+					..Default::default()
+				}),
 				Cmd::SetLoop(l) => handle.set_loop_region(l.map(|(a, b)| {
 					RegionSpec {
 						start: Pos::Samples(a),
@@ -468,18 +514,34 @@ pub fn run_case(case: &Case) -> CaseResult {
 			res.fail(Violation::new("panic", format!("panic: {}", monitor::panic_signature(&p)), format!("on_start_processing at chunk {ci}: {p}")));
 			break;
 		}
-		// reference applies the commands at the same point
+		// reference applies the commands at the same point. A sound that is Paused when a seek
+		// arrives (paused in an earlier gap, not resumed in this one) moves its transport but does
+		// not put the sought frame into the interpolator: the frames heard right after the resume
+		// are the old window's
+		let paused_for_seeks = ref_paused && !pending.iter().any(|c| matches!(c, Cmd::Resume));
 		for cmd in &pending {
 			res.hit("commands_applied");
+			match cmd {
+				Cmd::Pause if !ref_stopped => ref_paused = true,
+				Cmd::Resume if ref_paused => {
+					ref_paused = false;
+					fade_in_chunk = true;
+				}
+				_ => {}
+			}
 			if apply(&mut tr, *cmd, ref_stopped) {
-				// the sought frame enters the window at once
-				let (f, real) = fetch(&tr);
-				window.copy_within(1.., 0);
-				window[3] = f;
-				if real {
-					since_real = 0;
+				if !paused_for_seeks {
+					// the sought frame enters the window at once
+					let (f, real) = fetch(&tr);
+					window.copy_within(1.., 0);
+					window[3] = f;
+					if real {
+						since_real = 0;
+					} else {
+						since_real += 1;
+					}
 				} else {
-					since_real += 1;
+					res.hit("seeks_while_paused");
 				}
 				resync_after = Some(3);
 				post_seek = true;
@@ -510,6 +572,27 @@ pub fn run_case(case: &Case) -> CaseResult {
 			res.fail(Violation::new("panic", format!("panic: {}", monitor::panic_signature(&p)), format!("process at chunk {ci}: {p}")));
 			break;
 		}
+		if ref_paused {
+			res.hit("chunks_rendered_while_paused");
+			if let Some((k, o)) = out.iter().enumerate().find(|(_, o)| o.left != 0.0 || o.right != 0.0) {
+				res.fail(Violation::new("paused", "audio-while-paused", format!("chunk {ci} frame {k}: the sound was paused (instant tween) before this callback but emitted ({}, {})", o.left, o.right)));
+				break;
+			}
+			for o in out.iter() {
+				trace.f32(o.left);
+				trace.f32(o.right);
+			}
+			frames_out += out.len() as u64;
+			let st = handle.state();
+			trace.u64(st as u64);
+			if st == PlaybackState::Stopped && !ref_stopped {
+				res.fail(Violation::new("end-detection", "stopped-too-early", format!("after chunk {ci}: the paused sound reports Stopped, the reference still has frames to play")));
+				break;
+			}
+			continue;
+		}
+		let compare_chunk = !fade_in_chunk;
+		fade_in_chunk = false;
 		for (k, o) in out.iter().enumerate() {
 			trace.f32(o.left);
 			trace.f32(o.right);
@@ -540,7 +623,7 @@ pub fn run_case(case: &Case) -> CaseResult {
 				hermite([val(window[0]), val(window[1]), val(window[2]), val(window[3])], frac as f32 as f64)
 			};
 			let maxw = window.iter().map(|w| val(*w)).fold(1.0f64, f64::max);
-			let comparing = resync_after.is_none();
+			let comparing = resync_after.is_none() && compare_chunk;
 			if comparing && post_seek {
 				if exact && !ref_stopped {
 					// decode the frame index being heard; it must be within one frame of the reference
@@ -625,10 +708,13 @@ pub fn run_case(case: &Case) -> CaseResult {
 		trace.u64(state_after as u64);
 		trace.f64(handle.position());
 		if post_seek {
-			// bounded liveness only: a finished sound reports Stopped within two callbacks
+			// bounded liveness only: a finished sound reports Stopped within two callbacks - and
+			// not before two more source frames' worth of audio has been rendered (whether a seek
+			// puts its frame into the interpolator at once or with the next step is not prescribed)
 			if ref_stopped && state_after != PlaybackState::Stopped {
 				stopped_chunks += 1;
-				if stopped_chunks > 2 {
+				source_frames_since_stop += *chunk as f64 * if exact { 1.0 } else { step_size };
+				if stopped_chunks > 2 && source_frames_since_stop > 2.0 {
 					res.fail(Violation::new("end-detection", "not-stopped-after-last-frame", format!("after chunk {ci}: the reference finished {stopped_chunks} callbacks ago but the handle reports {state_after:?}")));
 					break;
 				}
@@ -690,7 +776,7 @@ impl Check for C04 {
 		CheckInfo {
 			id: "C04",
 			level: "exploration",
-			rule: "each case = sound length, slice, start position, loop region (incl. end == length, empty, start inside/after the loop), reverse, playback rate (+/-, 1, 0.5, 2, irrational), sound/device rate pair, chunk-size sequence, and optional seek_to / seek_by / set_loop_region commands at chunk boundaries (a loop-region change and a seek may share one gap when both orders of application give the same transport); the thorough tier adds the complete small-scope space (length <= 6 x slice x start x loop x reverse) as a workload source; non-trivial = non-silent output; distinct = hash of (state after each chunk, loop wraps, end reached, direction, rate class, length class)",
+			rule: "each case = sound length, slice, start position, loop region (incl. end == length, empty, start inside/after the loop), reverse, playback rate (+/-, 1, 0.5, 2, irrational), sound/device rate pair, chunk-size sequence, and optional seek_to / seek_by / set_loop_region commands at chunk boundaries (a loop-region change and a seek may share one gap when both orders of application give the same transport); 40% of the cases with commands contain a paused stretch (instant pause, instant resume some gaps later) with up to two seeks inside it: silence and no consumption while paused, every seek counts; the thorough tier adds the complete small-scope space (length <= 6 x slice x start x loop x reverse) as a workload source; non-trivial = non-silent output; distinct = hash of (state after each chunk, loop wraps, end reached, direction, rate class, length class)",
 			assumptions: vec![
 				"the sound is driven directly through the public Sound trait with MockInfoBuilder, the way Track::process drives it".into(),
 				"the reference accumulates rate x source-rate x dt in f64 exactly as the property states; interpolation is compared with tolerance 2e-5 x window magnitude, bit-exactly at rate 1 with equal rates".into(),
